@@ -21,7 +21,7 @@ ASSUMPTIONS = [
     "generation that raises is outside the quantifier and only counted",
     "post-processing (ruff/black/mypy) is skipped: no_postprocess=True",
 ]
-BOUND = {"quick": "G(2,1); ~340 field cases; ~440 operation cases inline and through component refs; 45 layouts x 3 naming strategies x 3 documents + 8 textually related layouts x 4 documents + all 15 documents at the default layout; ~190 tags; 80 discriminated unions",
+BOUND = {"quick": "G(2,1); ~340 field cases; ~440 operation cases inline and through component refs; 45 layouts x 3 naming strategies x 3 documents + 8 textually related layouts x 4 documents + all 17 documents; 152 tags; 80 discriminated unions; 6 colliding-enum documents",
          "thorough": "G(2,1), G(2,2|4 kinds), G(3,1|4 kinds); all field singles x names; full parameter product; response pairs x 6 contents; 45 layouts x 11 documents"}
 CHUNK = 4
 PACK = 8
